@@ -7,6 +7,7 @@ use std::time::Duration;
 pub(crate) static mut WAITED_NS: u128 = 0;
 pub(crate) static mut WAIT_CALLS: usize = 0;
 pub(crate) static mut LAST_WAIT_NS: u128 = 0;
+pub(crate) static mut MAX_WAIT_NS: u128 = 0;
 pub(crate) static mut WAIT_NONE: bool = false;
 pub(crate) const MAX_CALLS: usize = 12;
 
@@ -14,7 +15,7 @@ pub(crate) fn wait_event_stub(t: Option<Duration>) -> std::io::Result<()> {
     unsafe {
         WAIT_CALLS += 1;
         kani::assume(WAIT_CALLS <= MAX_CALLS);
-        match t { Some(d) => { LAST_WAIT_NS = d.as_nanos(); WAITED_NS += d.as_nanos(); } None => { WAIT_NONE = true; } }
+        match t { Some(d) => { LAST_WAIT_NS = d.as_nanos(); WAITED_NS += d.as_nanos(); if d.as_nanos() > MAX_WAIT_NS { MAX_WAIT_NS = d.as_nanos(); } } None => { WAIT_NONE = true; } }
     }
     Ok(())
 }
